@@ -617,6 +617,9 @@ Value Search::search(Position& position, Depth depth, Value alpha, Value beta,
         }
     }
 
+    // every move was pruned: the node fails low (and is not a mate)
+    if (bestValue == -VALUE_INFINITE) bestValue = alpha;
+
     if (best_move == NO_MOVE)
     {
         best_move = begin[0];
